@@ -278,6 +278,42 @@ theorem validClass_error (classes : Option (List Nat)) (hasLookup : Bool) (c : E
     · cases h
   · cases h
 
+/-- the road-class lookup has an entry for each of these candidates — asked only when it is consulted at all,
+i.e. when a lookup is loaded AND the query filters by road class (`cls` is `none` for every candidate of a
+plugin without a lookup).  For a plugin made by the builder this holds of every edge of the network
+(`edge_builder_consistent`: the lookup has the network's size). -/
+def LookupCovers (classes : Option (List Nat)) (hasLookup : Bool) (l : List (ECand α)) : Prop :=
+  hasLookup = true → classes.isSome → ∀ c ∈ l, c.cls ≠ none
+
+theorem LookupCovers.tail {classes : Option (List Nat)} {hasLookup : Bool} {c : ECand α} {l : List (ECand α)}
+    (h : LookupCovers classes hasLookup (c :: l)) : LookupCovers classes hasLookup l :=
+  fun a b c' hc' => h a b c' (List.mem_cons_of_mem _ hc')
+
+/-- what the edge matcher's tolerance test demands of the chosen edge: a great-circle distance exists and,
+converted into the tolerance's unit, is at most the tolerance -/
+def EPasses (tol : Option (α × DistanceUnit)) (c : ECand α) : Prop :=
+  match tol with
+  | none => True
+  | some (t, u) => ∃ g, c.gc = some g ∧ DistanceUnit.meters.convert u g ≤ t
+
+theorem withinTolerance_ok_true_iff (tol : Option (α × DistanceUnit)) (c : ECand α) :
+    withinTolerance tol c = .ok true ↔ EPasses tol c := by
+  unfold withinTolerance EPasses
+  cases tol with
+  | none => simp
+  | some tu =>
+    obtain ⟨t, u⟩ := tu
+    cases hg : c.gc with
+    | none => simp
+    | some g => simp
+
+/-- `cands` has a nearest admissible candidate, with id `id`, and it passes the tolerance test: the candidates
+before it are inadmissible (and have a road class where one is asked for) -/
+def Matchable (tol : Option (α × DistanceUnit)) (classes : Option (List Nat)) (hasLookup : Bool)
+    (cands : List (ECand α)) (id : Nat) : Prop :=
+  ∃ pre c post, cands = pre ++ c :: post ∧ c.id = id ∧ LookupCovers classes hasLookup pre ∧
+    (∀ c' ∈ pre, ¬ Admissible classes hasLookup c') ∧ Admissible classes hasLookup c ∧ EPasses tol c
+
 theorem matchVertexInto_sameOthers {W : List String} {tol : Option (α × DistanceUnit)} {q q' : Json} {f : Field}
     {cands : List (VCand α)} (hW : f.name ∈ W) (h : matchVertexInto tol q f cands = .ok q') :
     SameOthers W q q' := by
